@@ -215,6 +215,7 @@ type c02World struct {
 	redis    bool
 	sched    *c02Sched
 	failNonceGet bool // armed: the next GET of an s2s nonce key fails
+	failKeyPart  string // when set: the armed failure also hits a GET of a key containing this (the nonceonce store of ValidateDPoPProof)
 	verifyArgsBad bool
 	// authz leg
 	jarOp        *c02Op
@@ -343,7 +344,7 @@ func (h c02FaultHook) ProcessPipelineHook(next redis.ProcessPipelineHook) redis.
 }
 func (h c02FaultHook) ProcessHook(next redis.ProcessHook) redis.ProcessHook {
 	return func(ctx context.Context, cmd redis.Cmder) error {
-		if h.w.failNonceGet && strings.EqualFold(cmd.Name(), "get") && len(cmd.Args()) > 1 && strings.Contains(fmt.Sprint(cmd.Args()[1]), "s2s.nonce") {
+		if h.w.failNonceGet && strings.EqualFold(cmd.Name(), "get") && len(cmd.Args()) > 1 && (strings.Contains(fmt.Sprint(cmd.Args()[1]), "s2s.nonce") || (h.w.failKeyPart != "" && strings.Contains(fmt.Sprint(cmd.Args()[1]), h.w.failKeyPart))) {
 			h.w.failNonceGet = false
 			err := errors.New("verif: injected read failure (i/o timeout)")
 			cmd.SetErr(err)
@@ -3143,6 +3144,9 @@ func TestVerifC02(t *testing.T) {
 			if (op.Op == "s2s" || op.Op == "code" || op.Op == "introspect" || op.Op == "authresp") && rng.Intn(4) == 0 {
 				op.HTTP = true
 			}
+			if op.Op == "dpopval" && w.redis && rng.Intn(3) == 0 {
+				op.Fault = "jti-get"
+			}
 			if op.Op == "s2s" && w.redis && rng.Intn(3) == 0 {
 				// a transient read failure of the nonce entry: most useful during a replay, harmless otherwise
 				op.Fault, op.HTTP = "nonce-get", false
@@ -3199,11 +3203,13 @@ func TestVerifC02(t *testing.T) {
 			}
 			if op.Op == "code" && strings.HasPrefix(line, "200 token=") {
 				g.issued = append(g.issued, strings.Fields(line)[1][len("token="):])
+				g.dpv.note(g.issued[len(g.issued)-1], op.DPoP)
 			}
 			if op.Op == "s2s" {
 				g.noteNonces(op)
 				if strings.HasPrefix(line, "200 token=") {
 					g.issued = append(g.issued, strings.Fields(line)[1][len("token="):])
+					g.dpv.note(g.issued[len(g.issued)-1], op.DPoP)
 					g.accepted = append(g.accepted, op)
 				}
 			}
